@@ -4,6 +4,7 @@ mod io;
 mod gen;
 mod model;
 mod props;
+mod pyworker;
 mod sched;
 mod util;
 
